@@ -6,7 +6,8 @@ from . import progcommon as pc, tmpl
 
 RULE = ("case = one template program with a choice-domain relation: non-recursive (candidates from facts / a join; one key, two "
         "separate keys, a composite key) or recursive (spanning tree `tree(x,y) :- tree(_,x), edge(x,y)` with key y; "
-        "bijection matching with keys x and y; a chain `list(x,y) :- dom(y), list(_,x)`), many candidates per key, plus "
+        "bijection matching with keys x and y; a chain `list(x,y) :- dom(y), list(_,x)`; `multikey`: 3-4 columns and 1-3 random keys - "
+        "composite, overlapping, nested, permuted, with a repeated attribute - fed by one or two rules), many candidates per key, plus "
         "downstream rules reading the choice relation; run by the real interpreter at -j1 and at three of {2,3,4,8,16} "
         "threads with injected schedule perturbation. oracle (a contract, not equality with one expected file): (1) no two "
         "final tuples agree on a declared key; (2) soundness / well-foundedness: the least fixpoint of the relation's rules "
@@ -25,9 +26,37 @@ def keys_clash(t, u, keys):
 def program(seed):
     """-> text, spec dict for the oracle"""
     rng = random.Random(seed)
-    shape = rng.choice(["facts-1key", "facts-2keys", "facts-composite", "join", "tree", "matching", "list"])
+    shape = rng.choice(["facts-1key", "facts-2keys", "facts-composite", "join", "tree", "matching", "list", "multikey", "multikey"])
     o = []
     spec = dict(shape=shape)
+    if shape == "multikey":
+        # any list of declared keys over a wider relation: composite keys, keys that share attributes, a key inside another one,
+        # the same attributes in another order, an attribute named twice in one key
+        ar = rng.randint(3, 4)
+        names = ["a", "b", "c", "d"][:ar]
+        doms = [rng.randint(2, 5) for _ in range(ar)]
+        cand = sorted({tuple(rng.randrange(doms[i]) for i in range(ar)) for _ in range(rng.randint(4, 70))})
+        keys = []
+        for _ in range(rng.randint(1, 3)):
+            k = [rng.randrange(ar) for _ in range(rng.choice([1, 1, 2, 2, 3]))]
+            if keys and rng.random() < 0.35:
+                prev = list(rng.choice(keys))
+                k = rng.choice([prev[:1], prev[::-1], prev + prev[:1], sorted(set(prev))[:max(1, len(set(prev)) - 1)]])
+            keys.append(tuple(k))
+        def kfmt(k):
+            return names[k[0]] if len(k) == 1 and rng.random() < 0.7 else "(" + ", ".join(names[i] for i in k) + ")"
+        decl = "choice-domain " + ", ".join(kfmt(k) for k in keys)
+        hv = ", ".join(names)
+        o += [".decl cand(%s)" % ", ".join(n + ":number" for n in names)] + ["cand(%s)." % ", ".join(map(str, t)) for t in cand]
+        o += [".decl ch(%s) %s" % (", ".join(n + ":number" for n in names), decl), ".output ch"]
+        if rng.random() < 0.5:
+            o += ["ch(%s) :- cand(%s)." % (hv, hv)]
+        else:
+            # two rules feed the relation (the guard has to look at what the other rule inserted)
+            o += ["ch(%s) :- cand(%s), a %% 2 = 0." % (hv, hv), "ch(%s) :- cand(%s), a %% 2 != 0." % (hv, hv)]
+        o += [".decl cnt(n:number)", ".output cnt", "cnt(n) :- n = count : { ch(%s) }." % ", ".join("_" * ar)]
+        spec.update(keys=keys, derivable=cand, recursive=False, decl=decl)
+        return "\n".join(o) + "\n", spec
     if shape in ("facts-1key", "facts-2keys", "facts-composite", "join"):
         nk, nv = rng.randint(2, 12), rng.randint(2, 12)
         cand = sorted({(rng.randrange(nk), rng.randrange(nv)) for _ in range(rng.randint(3, 60))})
@@ -152,6 +181,10 @@ def oracle(spec, rows, d, od):
                 bad.append(("not-maximal", "derivable tuple %s is absent although it clashes with no present tuple" % (t,)))
                 break
         multi = len(dom) >= 2
+    if shape == "multikey":
+        cnt = tmpl.read_rows(d, "cnt", od)
+        if cnt != [(len(F),)]:
+            bad.append(("downstream-wrong", "cnt = %s but the choice relation holds %d tuples" % (cnt, len(F))))
     if shape.startswith("facts") or shape == "join":
         cnt = tmpl.read_rows(d, "cnt", od)
         dk = tmpl.read_rows(d, "dk", od)
